@@ -71,6 +71,12 @@ P = {
  "C12": ("model_checking", "Replicator.tla (ordered buffer, drain, expiry, catch-up) model-checked by TLC; one behaviour per quiescent final state replayed on a real PartitionReplicatorActor with real ReplicateWrite asks, timers and catch-up",
          "TLC explores every delivery order, duplication and conflict pattern of six replicated transactions (single/2-event, conflicting, inside a multi-event range) with buffer limits 1-3 and checks AppliedAtAssignedSeq, AtMostOnce, NoPendingBelowNext, RejectLeavesLogUnchanged, AllAnsweredAtRest; behaviours are replayed on a real PartitionReplicatorActor (real Database, ConfirmationActor, catch-up served by the real ClusterActor): the reply of every delivery and the replica's partition log are compared.",
          "Replica database written by its replicator only; expiry and catch-up replayed as alternative configurations; an evicted write whose evicting insert then conflicts is dropped rather than answered BufferEvicted (modelled as the code does).", "5/C12", "h-cluster"),
+ "C10": ("model_checking", "Replication.tla (3 nodes, divergent views, loss/duplication/reordering, late replies, catch-up, give-up, crash/restart) model-checked by TLC; random walks replayed on a virtual cluster of real Databases, replicator actors and the real ConfirmTransaction handler",
+         "TLC checks OneConfirmedPerSeq, ConfirmedPrefixAgree and QuorumCountMeansQuorumHeld over every schedule of the bounded model (two simultaneous coordinators through divergent views included); simulated behaviours with three transactions are replayed on three real Database directories with real PartitionReplicatorActors: real local appends, ReplicateWrite asks, set_confirmations_with_retry, ConfirmTransaction handled by the real ClusterActor switched to the replica's database, close/reopen for crash/restart; every reply, and finally every node's log and on-disk counts, must be the specification's, and no sequence may hold two quorum-confirmed transactions on the real disks.",
+         "One ClusterActor per process: coordinator fan-out / reply counting for rf = 3 is decided on the specification and mirrored by the harness; catch-up behaviours are not replayed here (C12 does).", "5/C10-C11", "h-cluster"),
+ "C11": ("model_checking", "Replication.tla AckedOnQuorum / AckedStable model-checked by TLC; the same virtual-cluster replay, with the acknowledged transactions checked on the real disks",
+         "TLC checks AckedOnQuorum (an acknowledged write sits at its sequence on a quorum of nodes and carries a quorum count on the coordinator) and AckedStable (logs only grow, acknowledgements are never withdrawn) over every schedule of the bounded model; in the virtual-cluster replay every transaction the specification acknowledges must be stored on a quorum of the real Database directories with the coordinator's on-disk count at the quorum, also after crash/restart steps.",
+         "Same trusted base as C10; a replica's Ok reply implies its append is durable (C01).", "5/C10-C11", "h-cluster"),
 }
 
 NOT_YET = "not yet built in this session (planned: see DESIGN.md section 5); no claim is made"
